@@ -3,8 +3,9 @@
    Rust/ArenaProofs.v.  Quantification: every item type T, every default item, every
    finite history of arena calls (bound in the theorem: fewer calls than 2^32-1, the
    handle range of the crate itself).
-   OBLIGATIONS: C16_history_refines_handle_map C16_allocate_fresh C16_release_once C16_release_no_return C16_get_mut C16_contains C16_counts C16_clear C16_compact C16_out_of_range C16_nonvacuous C16_len_counts_live *)
+   OBLIGATIONS: C16_history_refines_handle_map C16_allocate_fresh C16_release_once C16_release_no_return C16_get_mut C16_contains C16_counts C16_clear C16_compact C16_out_of_range C16_nonvacuous C16_len_counts_live C16_history_refines_strengthened_handle_map C16_allocate_never_returns_live_or_null C16_strengthened_machine_keeps_handles_distinct C16_strengthened_machine_is_a_restriction C16_compact_handles_exact *)
 From BPT Require Import Common.Base Rust.Arena Rust.ArenaSpec Rust.ArenaProofs.
+From BPT Require Import Extra.ArenaSpec2.
 From BPT Require Extra.RustExtra2.
 From Coq Require Import Permutation.
 
@@ -94,3 +95,53 @@ Theorem C16_len_counts_live : forall (T:Type) (a:arena T), ArenaInv a -> small a
   a_len a = length (filter (fun i => match a_get a (N.of_nat i) with Some _ => true | None => false end) (seq 0 (length (store a)))) /\
   a_free_count a = length (store a) - a_len a.
 Proof. exact RustExtra2.len_counts_live. Qed.
+
+(* the same refinement against the STRENGTHENED abstract machine sp_step2 / sp_run2 of Extra/ArenaSpec2.v (compact must yield pairwise distinct, non-null handles 0..n-1 in the old order), with wf_spec, R and ArenaInv at EVERY intermediate state of the history *)
+Theorem C16_history_refines_strengthened_handle_map :
+  forall (T : Type) (dflt : T) (ops : list (aop T)),
+    (N.of_nat (length ops) < NULL)%N ->
+    exists m',
+      sp_run2 (mkAmap [] 0) ops (snd (arun dflt a_new ops)) m' /\
+      R (fst (arun dflt a_new ops)) m' /\
+      ArenaInv (fst (arun dflt a_new ops)) /\
+      ~ In (OPanic T) (snd (arun dflt a_new ops)) /\
+      forall k, exists mk,
+        sp_run2 (mkAmap [] 0) (firstn k ops) (firstn k (snd (arun dflt a_new ops))) mk /\
+        sp_run2 mk (skipn k ops) (skipn k (snd (arun dflt a_new ops))) m' /\
+        wf_spec mk /\ R (fst (arun dflt a_new (firstn k ops))) mk /\
+        ArenaInv (fst (arun dflt a_new (firstn k ops))).
+Proof. exact ArenaSpec2.history_refines_handle_map2. Qed.
+
+(* in any history - compact steps included - a handle returned by allocate is not the null handle and not a handle that is live just before the call *)
+Theorem C16_allocate_never_returns_live_or_null :
+  forall (T : Type) (dflt : T) (ops : list (aop T)) (k : nat) (x : T),
+    (N.of_nat (length ops) < NULL)%N ->
+    nth_error ops k = Some (AAlloc x) ->
+    exists h mk mk1,
+      nth_error (snd (arun dflt a_new ops)) k = Some (OId T h) /\
+      sp_run2 (mkAmap [] 0) (firstn k ops) (firstn k (snd (arun dflt a_new ops))) mk /\
+      sp_step2 mk (AAlloc x) (OId T h) mk1 /\
+      wf_spec mk /\ R (fst (arun dflt a_new (firstn k ops))) mk /\
+      h <> NULL /\ ~ In h (map fst (live mk)) /\
+      a_get (fst (arun dflt a_new (firstn k ops))) h = None /\
+      assoc (live mk1) h = Some x /\ wf_spec mk1.
+Proof. exact ArenaSpec2.allocate_never_returns_live_or_null2. Qed.
+
+Section StrengthenedMachine.
+Variable T : Type.
+
+Theorem C16_strengthened_machine_keeps_handles_distinct : forall (m : amap T) o x m', wf_spec m -> sp_step2 m o x m' -> wf_spec m'.
+Proof. exact (@ArenaSpec2.sp_step2_wf T). Qed.
+
+Theorem C16_strengthened_machine_is_a_restriction : forall (m : amap T) ops outs m',
+  sp_run2 m ops outs m' -> sp_run m ops outs m'.
+Proof. exact (@ArenaSpec2.sp_run2_refines_sp_run T). Qed.
+
+Theorem C16_compact_handles_exact : forall (T : Type) (m m' : amap T) out,
+  wf_spec m -> sp_step2 m (ACompact T) out m' ->
+  length (live m') = length (live m) /\
+  NoDup (map fst (live m')) /\ ~ In NULL (map fst (live m')) /\
+  (forall h, In h (map fst (live m')) <-> (h < N.of_nat (length (live m)))%N).
+Proof. exact ArenaSpec2.sp_step2_compact_handles. Qed.
+
+End StrengthenedMachine.
